@@ -261,6 +261,46 @@ class NpProxy:
     def where(self, cond, *args):
         return _np.where(cond, *args)
 
+    def linspace(self, start, stop, num=50, endpoint=True, retstep=False, dtype=None, **kw):
+        if _active() and (is_sym(start) or is_sym(stop) or is_sym(num)):
+            n = num.__index__() if is_sym(num) else int(num)
+            if n < 0:
+                raise ValueError(f"Number of samples, {n}, must be non-negative.")
+            div = (n - 1) if endpoint else n
+            step = (stop - start) / div if div > 0 else None
+            out = _np.empty(n, dtype=object)
+            for k in range(n):
+                out[k] = start + k * step if step is not None else start
+            if endpoint and n > 1:
+                out[n - 1] = stop
+            return (out, step) if retstep else out
+        return _np.linspace(start, stop, num=num, endpoint=endpoint, retstep=retstep, dtype=dtype, **kw)
+
+    def geomspace(self, start, stop, num=50, endpoint=True, dtype=None, **kw):
+        """contract stub on symbolic end points: an arbitrary strictly monotone sequence of `num` points from start to stop
+        (same sign), the geometric spacing itself is not modelled"""
+        if _active() and (is_sym(start) or is_sym(stop)):
+            ctx = V.get_context()
+            n = int(num)
+            out = _np.empty(n, dtype=object)
+            if n == 0:
+                return out
+            out[0] = start
+            if n == 1:
+                return out
+            out[n - 1] = stop
+            ctx.assume((start < stop) if bool(start < stop) else (start > stop))
+            inc = bool(start < stop)
+            prev = start
+            for k in range(1, n - 1):
+                x = ctx.real("geom")
+                ctx.assume(x > prev if inc else x < prev)
+                ctx.assume(x < stop if inc else x > stop)
+                out[k] = x
+                prev = x
+            return out
+        return _np.geomspace(start, stop, num=num, endpoint=endpoint, dtype=dtype, **kw)
+
     def interp(self, x, xp, fp):
         if _has_sym(x) or _has_sym(xp) or _has_sym(fp):
             raise Unsupported("np.interp on symbolic data")
